@@ -498,12 +498,20 @@ theorem C01_lock_discipline_data (r : Row) (hr : r ∈ Gen.lockTable)
   obtain ⟨c, hc, ⟨⟨⟨⟨h1, h2⟩, h3⟩, h4⟩, h5⟩⟩ := hrow
   exact ⟨c, hc, h1, h2, h3, h4, h5⟩
 
+/-- with the allocation outcome as an input: a deleted store still accepts nothing -/
+theorem addDataA_deleted (s : State) (hdel : s.deleted = true) (i b : Nat) (inp : Bytes)
+    (peer : Nat) (ok : Bool) : (addDataA g s i b inp peer ok).1 = s := by
+  unfold addDataA
+  split
+  · rfl
+  · exact (C01_deleted_refuses g s hdel i).1 b inp peer
+
 /-! ### non-vacuity: a concrete run that completes a piece and reads it back -/
 
 def gEx : Geom := { ps := 4, length := 6, cs := 2 }
 def HEx : Bytes → Bytes := fun d => [UInt8.ofNat d.length]
 def stepsEx : List Step :=
-  [.addData 0 0 [1, 2] 7, .addData 0 2 [3, 4] 8, .finBegin 0, .hashRead 0, .finEnd 0 [4]]
+  [.addData 0 0 [1, 2] 7 true, .addData 0 2 [3, 4] 8 true, .finBegin 0, .hashRead 0, .finEnd 0 [4]]
 
 example : gEx.Valid := ⟨by decide, by decide⟩
 example : ((run HEx gEx (init gEx) stepsEx).pieces[0]?).map (·.state) = some .complete := by
